@@ -10,6 +10,7 @@ import re
 
 from ural.patterns import QUERY_VALUE_IN_URL_TEMPLATE, CONTROL_CHARS_RE
 from ural.utils import unquote, urljoin, urlsplit
+from ural.quote import unquote_letters
 
 OBVIOUS_REDIRECTS_RE = re.compile(
     QUERY_VALUE_IN_URL_TEMPLATE
@@ -38,13 +39,16 @@ def infer_one_redirection(url):
     else:
         # NOTE: a redirection hint is a GET parameter: the fragment is never
         # sent to a server and its "&" or "=" delimit nothing
-        obvious_redirect_match = re.search(OBVIOUS_REDIRECTS_RE, url.split("#", 1)[0])
+        # NOTE: a key can be written with escaped letters ("%75rl" is "url")
+        searched = unquote_letters(url.split("#", 1)[0])
+
+        obvious_redirect_match = re.search(OBVIOUS_REDIRECTS_RE, searched)
 
         if obvious_redirect_match is not None:
             # NOTE: the keys are matched whatever their case, "Q" is "q"
             if obvious_redirect_match.group(1).lower() == "q":
                 # NOTE: "q" need not be the first item of the query
-                if not GOOGLE_URL_RE.search(url) and "/redirect" not in url:
+                if not GOOGLE_URL_RE.search(searched) and "/redirect" not in url:
                     return url
 
             potential_target = unquote(obvious_redirect_match.group(2))
